@@ -322,8 +322,9 @@ impl NaiveDate {
         let delta = flags.isoweek_delta();
         let (year, ordinal, flags) = if weekord <= delta {
             // ordinal < 1, previous year
-            let prevflags = YearFlags::from_year(year - 1);
-            (year - 1, weekord + prevflags.ndays() - delta, prevflags)
+            let prevyear = try_opt!(year.checked_sub(1));
+            let prevflags = YearFlags::from_year(prevyear);
+            (prevyear, weekord + prevflags.ndays() - delta, prevflags)
         } else {
             let ordinal = weekord - delta;
             let ndays = flags.ndays();
@@ -332,8 +333,9 @@ impl NaiveDate {
                 (year, ordinal, flags)
             } else {
                 // ordinal > ndays, next year
-                let nextflags = YearFlags::from_year(year + 1);
-                (year + 1, ordinal - ndays, nextflags)
+                let nextyear = try_opt!(year.checked_add(1));
+                let nextflags = YearFlags::from_year(nextyear);
+                (nextyear, ordinal - ndays, nextflags)
             }
         };
         NaiveDate::from_ordinal_and_flags(year, ordinal, flags)
